@@ -63,6 +63,7 @@ var (
 	failReadAt int
 	reads      int
 	failShort  bool
+	failMore   int // mutating calls that fail after the one FailAt points at
 )
 
 // ErrInjected is what a call hit by FailAt returns.
@@ -88,6 +89,14 @@ func ReadCount() int {
 func FailShort(on bool) {
 	mu.Lock()
 	failShort = on
+	mu.Unlock()
+}
+
+// FailRun makes the n-th mutating call under the watched root and the count-1 mutating calls after it fail (a disk that
+// is full for a while): FailAt(n) is FailRun(n, 1).
+func FailRun(n, count int) {
+	mu.Lock()
+	failAt, failMore = n, count-1
 	mu.Unlock()
 }
 
@@ -158,7 +167,7 @@ func Reset(watchRoot string, logging bool) {
 	count, armAt, armMode = 0, 0, 0
 	steps, pauseIn, pauseInFn = 0, 0, nil
 	matchKind, matchSuffix = "", ""
-	failAt, failReadAt, reads, failShort = 0, 0, 0, false
+	failAt, failReadAt, reads, failShort, failMore = 0, 0, 0, false, 0
 	select {
 	case <-crashed:
 	default:
@@ -292,6 +301,10 @@ func step(kind, path, to string, mut bool) int {
 		}
 		if failAt != 0 && count == failAt {
 			failAt = 0
+			if failMore > 0 {
+				failMore--
+				failAt = count + 1
+			}
 			op.Kind += "!fault"
 			if logOn {
 				log = append(log, op)
